@@ -216,7 +216,7 @@ def gen_kt(rng, tier):
                 cases.append("KT %s ; kc 1 , kc 2 , uc 1 t 0 , %s , uj 1" % (env, " , ".join(seq)))
                 n += 1
     stats["kt_exhaustive_len<=%d" % maxlen] = n
-    per_env = 14 if tier == "quick" else 160
+    per_env = 14 if tier == "quick" else 200
     nr = 0
     for env in ENVS_POW2 + ENVS_ODD:
         for i in range(per_env):
@@ -235,7 +235,7 @@ def gen_kt(rng, tier):
 
 def gen_wb(rng, tier):
     cases = []
-    n = 240 if tier == "quick" else 4000
+    n = 240 if tier == "quick" else 5000
     for _ in range(n):
         env = rng.choice(ENVS_POW2 + ["3", "-", "100"])
         try:
@@ -266,13 +266,13 @@ def gen_wb(rng, tier):
 
 def gen_cc(rng, tier):
     cases = []
-    n = 10 if tier == "quick" else 60
+    n = 10 if tier == "quick" else 40
     for i in range(n):
         env = rng.choice(["1", "1", "2", "4", "16", "64"])
-        e = rng.choice([2, 3, 4]) if tier == "quick" else rng.choice([2, 4, 6, 8])
+        e = rng.choice([2, 3, 4]) if tier == "quick" else rng.choice([2, 3, 4, 5])
         k = rng.choice([1, 2, 4, 8, 16])
         r = rng.choice([1, 2, 10])
-        rounds = 60 if tier == "quick" else 300
+        rounds = 60 if tier == "quick" else 150
         cases.append("CC %s ; %d %d %d %d" % (env, e, k, r, rounds))
     return cases, {"cc_stress": n}
 
@@ -336,13 +336,18 @@ def race_stage(rep, sc, lib, cov, tier, seed):
 
 def run(tier, seed, replay):
     if replay:
-        import json
+        import json, os
         try:
-            if json.load(open(replay)).get("stage") == "race":
-                global RACE_CASES
-                RACE_CASES = json.load(open(replay))["cases"]
+            payload = json.load(open(replay))
         except Exception:
-            pass
+            payload = {}
+        if payload.get("stage") == "race":
+            # a replay of the race stage: run exactly those RC cases there; the main stage only checks the sizes
+            global RACE_CASES
+            RACE_CASES = payload["cases"]
+            os.makedirs(vlib.BUILD, exist_ok=True)
+            replay = os.path.join(vlib.BUILD, "c16-race-replay.json")
+            json.dump({"cases": ["CFG"]}, open(replay, "w"))
     return vlib.run_differential_property(
         ID, "Properties_C16.v", ["Properties_C16.vo", "Extract_C16.vo"], "c16", "h_c16.c",
         gen, classify, nontrivial, tier, seed, replay=replay, san=True,
